@@ -270,7 +270,7 @@ func (s *vfC08Sim) clone() *vfC08Sim {
 	o.lock.RLock()
 	c := &changeCache{
 		db: o.db, logCtx: o.logCtx, nextSequence: o.nextSequence, initialSequence: o.initialSequence,
-		receivedSeqs: make(map[uint64]struct{}, len(o.receivedSeqs)), skippedSeqs: NewSkippedSequenceSkiplist(),
+		receivedSeqs: make(map[uint64]struct{}, len(o.receivedSeqs)), skippedSeqs: vfC08GetList(),
 		options: o.options, initTime: o.initTime, channelCache: n.rec, lastAddPendingTime: o.lastAddPendingTime,
 		internalStats: o.internalStats, sgCfgPrefix: o.sgCfgPrefix, metaKeys: o.metaKeys,
 	}
@@ -290,6 +290,35 @@ func (s *vfC08Sim) clone() *vfC08Sim {
 	o.lock.RUnlock()
 	n.c = c
 	return &n
+}
+
+// Creating a skiplist seeds a random source (dominant cost of a copy), so the explorer recycles the
+// lists of discarded copies: a list emptied through its own Remove is indistinguishable from a new one.
+var vfC08ListPool []*SkippedSequenceSkiplist
+
+func vfC08GetList() *SkippedSequenceSkiplist {
+	if l := len(vfC08ListPool); l > 0 {
+		sl := vfC08ListPool[l-1]
+		vfC08ListPool = vfC08ListPool[:l-1]
+		return sl
+	}
+	return NewSkippedSequenceSkiplist()
+}
+
+// recycle retires a copy made by clone (single-threaded explorer only).
+func (s *vfC08Sim) recycle() {
+	sl := s.c.skippedSeqs
+	for el := sl.list.Front(); el != nil; el = sl.list.Front() {
+		if _, _, err := sl.list.Remove(el.Key()); err != nil {
+			return // do not reuse a list that cannot be emptied
+		}
+	}
+	if sl.list.GetLength() != 0 || sl.list.GetNumSequencesInList() != 0 || sl.list.GetLastElement() != nil {
+		return
+	}
+	sl.NumCumulativeSkippedSequences = 0
+	s.c.skippedSeqs = nil
+	vfC08ListPool = append(vfC08ListPool, sl)
 }
 
 func (s *vfC08Sim) noteArrived(i int) bool { return s.arrived&(1<<uint(i)) != 0 }
@@ -643,12 +672,14 @@ func (e *vfC08Enum) explore(s *vfC08Sim) {
 			// a duplicate that left the cache untouched is not charged against the duplicate budget
 			if string(e.key(c)) == parentKey {
 				e.ops = e.ops[:len(e.ops)-1]
+				c.recycle()
 				return
 			}
 			c.dups++
 		}
 		e.explore(c)
 		e.ops = e.ops[:len(e.ops)-1]
+		c.recycle()
 	}
 
 	step(vfC08Op{kind: 'T'})
@@ -672,6 +703,7 @@ func (e *vfC08Enum) explore(s *vfC08Sim) {
 	}
 	e.ops = e.ops[:len(e.ops)-1]
 	e.flushes++
+	f.recycle()
 }
 
 func vfC08OpenEnv(t *testing.T) (*vfC08Env, func()) {
